@@ -32,16 +32,23 @@ def _worker(args):
     try:
         mod.run_job(job, res)
     except (Unmodelled, Inconclusive) as e:
-        res["inconclusive"].append(f"{type(e).__name__}: {e} @ {_where(e)}")
+        res["inconclusive"].append(f"{type(e).__name__}: {_msg(e)} @ {_where(e)}")
     except AssertionError as e:
-        res["inconclusive"].append(f"harness assertion: {e} @ {_where(e)}")
+        res["inconclusive"].append(f"harness assertion: {_msg(e)} @ {_where(e)}")
     except Exception as e:  # noqa: BLE001
-        res["inconclusive"].append(f"harness error {type(e).__name__}: {e} @ {_where(e)}")
+        res["inconclusive"].append(f"harness error {type(e).__name__}: {_msg(e)} @ {_where(e)}")
     res["violations"] = list(res["violations"])
     res["stats"] = dict(rt.ctx.stats)
     res["functions"] = sorted(rt.ctx.entered)
     res["wall_s"] = round(time.time() - t, 3)
     return res
+
+
+def _msg(e):
+    try:
+        return str(e)
+    except BaseException:  # noqa: BLE001  (message may hold a symbolic string)
+        return "<symbolic message>"
 
 
 class _Capped(list):
@@ -210,6 +217,8 @@ def run_check(pid, tier, modname):
             print(f"INCONCLUSIVE property={pid} reason={x[:700]}")
         code = EXIT_INCONCLUSIVE
     c = ev["coverage"]
+    slow = sorted(results, key=lambda r: -r["wall_s"])[:4]
+    print("slowest jobs: " + "; ".join(f"{json.dumps(r['job'], default=str)[:80]} {r['wall_s']}s" for r in slow))
     print(
         f"{pid} {tier}: jobs={len(jobs)} paths={c['states']} queries={c['queries']['total']} "
         f"(unsat {c['queries']['unsat']}, sat {c['queries']['sat']}) solver={c['solver_s']}s "
